@@ -20,6 +20,18 @@ WIDTHS = {"unsigned char": (8, False), "uint8_t": (8, False), "unsigned short": 
 class Unsupported(Exception):
     pass
 
+def vec_of(t):
+    """(element width, lanes, signed) of a GCC/clang vector type string, or None"""
+    m = re.match(r"^(?:const\s+)?([\w ]+?)\s*__attribute__\(\((?:ext_vector_type|__vector_size__|vector_size)\((\d+)(?:\s*\*\s*sizeof\(([\w ]+)\))?\)\)\)", t.strip())
+    if not m: return None
+    et = m.group(1).strip()
+    if et not in WIDTHS: return None
+    ew, sg = WIDTHS[et]
+    n = int(m.group(2))
+    if "vector_size" in t and "ext_vector_type" not in t:
+        n = n * (WIDTHS[m.group(3).strip()][0] // 8 if m.group(3) else 1) * 8 // ew
+    return ew, n, sg
+
 def loc_of(n):
     r = n.get("range", {}).get("begin", {})
     l = r.get("line") or r.get("spellingLoc", {}).get("line") or r.get("expansionLoc", {}).get("line")
@@ -56,7 +68,10 @@ class TU:
         for name, td in self.typedefs.items():
             rec = self.find_record(td)
             if rec is not None:
-                self.layouts[name] = self.layout(rec)
+                try:
+                    self.layouts[name] = self.layout(rec)
+                except Unsupported:
+                    pass                                    # a record this translator never needs (system headers)
 
     def find_record(self, td):
         def walk(n):
@@ -77,7 +92,9 @@ class TU:
             s, a = self.type_size(m.group(1)); return s * int(m.group(2)), a
         if t in WIDTHS: return WIDTHS[t][0] // 8, WIDTHS[t][0] // 8
         if t in self.layouts: return self.layouts[t]["size"], self.layouts[t]["align"]
-        if t.endswith("*"): return 8, 8
+        v = vec_of(t) or (vec_of(strip_q(ctype_of_typedef(self, t))) if t in self.typedefs else None)
+        if v: return v[0] * v[1] // 8, v[0] * v[1] // 8
+        if t.endswith("*") or "(*)" in t: return 8, 8
         raise Unsupported("size of type '%s'" % t)
 
     def layout(self, rec):
@@ -124,9 +141,13 @@ class Gen:
     def emit_store(self, r, off, nbytes, e):
         self.stmts.append("SStore %d %d %d (%s)" % (r, off, nbytes, e))
 
+    def vtype(self, n):
+        return vec_of(strip_q(ctype(n)))
     def wtype(self, n):
         t = strip_q(ctype(n))
         if t in WIDTHS: return WIDTHS[t]
+        v = vec_of(t)
+        if v: return (v[0] * v[1], v[2])
         t2 = strip_q(n["type"]["qualType"])
         if t2 in WIDTHS: return WIDTHS[t2]
         raise Unsupported("type '%s' at %s" % (t, loc_of(n)))
@@ -156,6 +177,9 @@ class Gen:
             v = self.lookup(n["referencedDecl"]["name"])
             if v[0] == "local": return v
             if v[0] == "region":                                   # a whole object: only meaningful under member access
+                tn = strip_q(v[3])
+                vt = vec_of(tn) or (vec_of(strip_q(ctype_of_typedef(self.tu, tn))) if tn in self.tu.typedefs else None)
+                if vt: return ("mem", v[1], v[2], vt[0] * vt[1] // 8, vt[2])      # a vector variable bound to a region
                 return ("obj", v[1], v[2], v[3])
             raise Unsupported("lvalue '%s' at %s" % (n["referencedDecl"]["name"], loc_of(n)))
         if k == "MemberExpr":
@@ -183,13 +207,22 @@ class Gen:
             es, _ = self.tu.type_size(et)
             if et in WIDTHS:
                 return ("mem", base[1], base[2] + idx * es, es, WIDTHS[et][1])
+            vt = self.vtype(n)
+            if vt: return ("mem", base[1], base[2] + idx * es, es, vt[2])
             return ("obj", base[1], base[2] + idx * es, et)
         if k == "ImplicitCastExpr" and n.get("castKind") in ("ArrayToPointerDecay", "NoOp", "LValueToRValue"):
             return self.lvalue(n["inner"][0])
         if k == "UnaryOperator" and n["opcode"] == "*":
+            t0 = n["inner"][0]
+            while t0.get("kind") in ("ParenExpr", "ImplicitCastExpr"): t0 = t0["inner"][0]
+            if t0.get("kind") == "DeclRefExpr":
+                v = self.lookup(t0["referencedDecl"]["name"])
+                if v[0] == "localptr": return ("local", v[1], v[2], v[3])
             b = self.lvalue_obj(n["inner"][0])
             t = strip_q(b[3]); t = t[:-1].strip() if t.endswith("*") else t
             if t in WIDTHS: return ("mem", b[1], b[2], WIDTHS[t][0] // 8, WIDTHS[t][1])
+            vt = self.vtype(n)
+            if vt: return ("mem", b[1], b[2], vt[0] * vt[1] // 8, vt[2])
             return ("obj", b[1], b[2], t)
         raise Unsupported("lvalue of kind %s at %s" % (k, loc_of(n)))
     def lvalue_obj(self, n):
@@ -199,6 +232,13 @@ class Gen:
             return self.lvalue_obj(n["inner"][0])
         if k == "UnaryOperator" and n["opcode"] == "&":
             return self.lvalue_obj(n["inner"][0])
+        if k == "CStyleCastExpr" and n.get("castKind") in ("BitCast", "NoOp"):
+            b = self.lvalue_obj(n["inner"][0]); return ("obj", b[1], b[2], strip_q(n["type"]["qualType"]))
+        if k == "BinaryOperator" and n.get("opcode") == "+" and "*" in n["type"]["qualType"]:
+            b = self.lvalue_obj(n["inner"][0]); kk = self.const(n["inner"][1])
+            pt = strip_q(b[3]); pointee = pt[:-1].strip() if pt.endswith("*") else pt
+            es = 1 if pointee in ("void", "") else self.tu.type_size(pointee)[0]
+            return ("obj", b[1], b[2] + kk * es, b[3])
         if k == "DeclRefExpr":
             v = self.lookup(n["referencedDecl"]["name"])
             if v[0] == "region": return ("obj", v[1], v[2], v[3])
@@ -217,7 +257,32 @@ class Gen:
             v = self.lookup(n["referencedDecl"]["name"])
             if v[0] == "local": return ("ELocal %d" % v[1], v[2], v[3])
             if v[0] == "const": return ("EConst %d %d" % (v[2], v[1] & ((1 << v[2]) - 1)), v[2], v[3])
+            if v[0] == "region":
+                lv = self.lvalue(n)
+                if lv[0] == "mem": return ("ELoad %d %d %d" % (lv[1], lv[2], lv[3]), lv[3] * 8, lv[4])
             self.bad(n)
+        if k == "ArraySubscriptExpr" and self.vtype(n["inner"][0]):
+            # lane of a vector value
+            ew, ln, sg = self.vtype(n["inner"][0]); idx = self.const(n["inner"][1])
+            e, w, s = self.expr(n["inner"][0])
+            return ("ESlice (%s) %d %d" % (e, idx * ew, ew), ew, sg)
+        if k in ("CompoundLiteralExpr",):
+            return self.expr(n["inner"][0])
+        if k == "InitListExpr" and self.vtype(n):
+            ew, ln, sg = self.vtype(n)
+            parts = []
+            for c in n["inner"]:
+                e, w, s = self.expr(c)
+                if w != ew: e = ("EZext %d (%s)" % (ew, e)) if (ew < w or not s) else ("ESext %d (%s)" % (ew, e))
+                parts.append(e)
+            if len(parts) != ln: raise Unsupported("vector initialiser with %d of %d lanes at %s" % (len(parts), ln, loc_of(n)))
+            return ("EConcat [%s]" % "; ".join(parts), ew * ln, sg)
+        if k == "UnaryOperator" and n.get("opcode") == "*":
+            t = n["inner"][0]
+            while t.get("kind") in ("ParenExpr", "ImplicitCastExpr"): t = t["inner"][0]
+            if t.get("kind") == "DeclRefExpr":
+                v = self.lookup(t["referencedDecl"]["name"])
+                if v[0] == "localptr": return ("ELocal %d" % v[1], v[2], v[3])
         if k in ("MemberExpr", "ArraySubscriptExpr") or (k == "UnaryOperator" and n.get("opcode") == "*"):
             lv = self.lvalue(n)
             if lv[0] != "mem": raise Unsupported("load of a non-scalar at %s" % loc_of(n))
@@ -225,6 +290,13 @@ class Gen:
         if k == "ImplicitCastExpr" or k == "CStyleCastExpr":
             ck = n.get("castKind")
             if ck in ("LValueToRValue", "NoOp"): return self.expr(n["inner"][0])
+            if ck == "VectorSplat":
+                ew, ln, sg = self.vtype(n)
+                e, w, s = self.expr(n["inner"][0])
+                if w != ew: e = ("EZext %d (%s)" % (ew, e)) if (ew < w or not s) else ("ESext %d (%s)" % (ew, e))
+                return ("EConcat [%s]" % "; ".join([e] * ln), ew * ln, sg)
+            if ck == "BitCast" and self.vtype(n) and self.vtype(n["inner"][0]):
+                e, w, s = self.expr(n["inner"][0]); return (e, w, self.vtype(n)[2])
             if ck == "IntegralCast":
                 e, w, s = self.expr(n["inner"][0]); w2, s2 = self.wtype(n)
                 if w2 == w: return (e, w2, s2)
@@ -243,9 +315,10 @@ class Gen:
                 return ("EBin %s (%s) (%s)" % ({"&": "BAnd", "|": "BOr", "^": "BXor"}[o], a, b), wa, self.wtype(n)[1])
             if o in ("<<", ">>"):
                 a, wa, sa = self.expr(n["inner"][0]); kk = self.const(n["inner"][1])
-                if not (0 <= kk < wa): raise Unsupported("shift count %d at %s" % (kk, loc_of(n)))
-                if o == "<<": return ("EShl %d (%s) %d" % (wa, a, kk), wa, sa)
-                return ("%s %d (%s) %d" % ("EShrA" if sa else "EShrL", wa, a, kk), wa, sa)
+                v = self.vtype(n["inner"][0]); lw = v[0] if v else wa
+                if not (0 <= kk < lw): raise Unsupported("shift count %d at %s" % (kk, loc_of(n)))
+                if o == "<<": return ("EShl %d (%s) %d" % (lw, a, kk), wa, sa)
+                return ("%s %d (%s) %d" % ("EShrA" if sa else "EShrL", lw, a, kk), wa, sa)
             raise Unsupported("binary operator %s at %s" % (o, loc_of(n)))
         if k == "CallExpr":
             return self.call(n)
@@ -256,6 +329,21 @@ class Gen:
         while callee.get("kind") in ("ImplicitCastExpr", "ParenExpr"): callee = callee["inner"][0]
         name = callee["referencedDecl"]["name"]
         args = n["inner"][1:]
+        if name in OPAQUE_PROCS and OPAQUE_PROCS[name] is not None and self.opaque:
+            # a separately verified procedure that applies word function f to every pointer argument in place
+            for a in args:
+                t = a
+                while t.get("kind") in ("ParenExpr", "ImplicitCastExpr"): t = t["inner"][0]
+                if t.get("kind") == "UnaryOperator" and t.get("opcode") == "&":
+                    lv = self.lvalue(t["inner"][0])
+                    if lv[0] == "local": self.emit_local(lv[1], "ECall %d (ELocal %d)" % (OPAQUE_PROCS[name], lv[1]))
+                    elif lv[0] == "mem": self.emit_store(lv[1], lv[2], lv[3], "ECall %d (ELoad %d %d %d)" % (OPAQUE_PROCS[name], lv[1], lv[2], lv[3]))
+                    elif lv[0] == "obj":
+                        nb = self.tu.type_size(lv[3])[0]
+                        self.emit_store(lv[1], lv[2], nb, "ECall %d (ELoad %d %d %d)" % (OPAQUE_PROCS[name], lv[1], lv[2], nb))
+                    else: raise Unsupported("opaque procedure argument at %s" % loc_of(a))
+                else: raise Unsupported("opaque procedure argument at %s" % loc_of(a))
+            return ("EConst 1 0", 1, False)
         if name in self.opaque:
             if len(args) != 1: raise Unsupported("opaque call with %d arguments" % len(args))
             e, w, s = self.expr(args[0])
@@ -271,14 +359,25 @@ class Gen:
         for p, a in zip(params, args):
             pt = strip_q(ctype(p))
             if pt.endswith("*"):
+                t = a
+                while t.get("kind") in ("ParenExpr", "ImplicitCastExpr"): t = t["inner"][0]
+                if t.get("kind") == "UnaryOperator" and t.get("opcode") == "&":
+                    try:
+                        lv = self.lvalue(t["inner"][0])
+                    except Unsupported:
+                        lv = None
+                    if lv and lv[0] == "local":
+                        scope[p["name"]] = ("localptr", lv[1], lv[2], lv[3]); continue
                 o = self.lvalue_obj(a)
                 pointee = strip_q(p["type"]["qualType"]); pointee = pointee[:-1].strip() if pointee.endswith("*") else pointee
                 scope[p["name"]] = ("region", o[1], o[2], pointee + " *")
             else:
                 try:
                     c = self.const(a); w, s = WIDTHS[pt]; scope[p["name"]] = ("const", c, w, s)
-                except Unsupported:
-                    e, w, s = self.expr(a); w2, s2 = WIDTHS[pt]
+                except (Unsupported, KeyError):
+                    e, w, s = self.expr(a)
+                    vt = vec_of(pt)
+                    w2, s2 = (vt[0] * vt[1], vt[2]) if vt else WIDTHS[pt]
                     if w2 != w: e = ("EZext %d (%s)" % (w2, e)) if (w2 < w or not s) else ("ESext %d (%s)" % (w2, e))
                     i = self.new_local(w2); self.emit_local(i, e); scope[p["name"]] = ("local", i, w2, s2)
         self.scopes.append(scope)
@@ -310,6 +409,10 @@ class Gen:
                         e, w2, s2 = self.expr(d["inner"][-1])
                         if w2 != w: e = ("EZext %d (%s)" % (w, e)) if (w < w2 or not s2) else ("ESext %d (%s)" % (w, e))
                         self.emit_local(i, e)
+                elif vec_of(t):
+                    ew, ln, sg = vec_of(t); i = self.new_local(ew * ln); self.scopes[-1][d["name"]] = ("local", i, ew * ln, sg)
+                    if d.get("inner"):
+                        e, w2, s2 = self.expr(d["inner"][-1]); self.emit_local(i, e)
                 elif tq in self.tu.layouts:                         # a local cells union / struct: its own region
                     r = self.region(d["name"], self.tu.layouts[tq]["size"]); self.scopes[-1][d["name"]] = ("region", r, 0, tq)
                     if d.get("inner"):                              # "MantisCells_t tmp = ks->k0;" : copy
@@ -458,6 +561,8 @@ def kernel_loop(tu, fname, nth, binds, opaque, consts=None, carried=None, sizes=
                 t = strip_q(ctype(d))
                 if d.get("kind") == "VarDecl" and t in WIDTHS and d["name"] not in scope:
                     w, sg = WIDTHS[t]; g.scopes[-1][d["name"]] = ("local", g.new_local(w), w, sg)
+                elif d.get("kind") == "VarDecl" and vec_of(t) and d["name"] not in scope:
+                    ew, ln, sg = vec_of(t); g.scopes[-1][d["name"]] = ("local", g.new_local(ew * ln), ew * ln, sg)
     g.stmt(body)
     for i, r, w in carried_l:
         g.emit_store(r, 0, w // 8, "ELocal %d" % i)
@@ -470,6 +575,7 @@ def emit(g, name):
 
 # ----------------------------------------------------------------------
 # kernel table and obligation files
+OPAQUE_PROCS = {"skinny128_sbox_four": 0, "skinny128_sbox_two": 0, "skinny128_inv_sbox_four": 1, "skinny128_inv_sbox_two": 1}
 OPAQUE = {"skinny128_sbox": 0, "skinny128_inv_sbox": 1, "skinny64_sbox": 2, "skinny64_inv_sbox": 3, "mantis_sbox": 4}
 FULL = ("poly pxor pand pzero pone", "bool xorb andb false true")
 XZ = ("poly pxor pzero", "bool xorb false")
@@ -527,6 +633,14 @@ MANTIS_ROUNDS = [
     ("mantis_ecb_crypt_tweaked", 1, "mantis_t_bwd", "tk", [("km_bwd_linear", XZ), ("km_sub", FULL), ("km_h_inv", Z)]),
 ]
 
+VEC_FILES = [
+    # (file, tag, lanes, vector type, encrypt function, decrypt function or None)
+    ("skinny128-ctr-vec128.c", "v128ctr", 4, "SkinnyVector4x32_t", "skinny128_ecb_encrypt_four", None),
+    ("skinny128-parallel-vec128.c", "v128par", 4, "SkinnyVector4x32_t", "_skinny128_parallel_encrypt_vec128", "_skinny128_parallel_decrypt_vec128"),
+    ("skinny128-ctr-vec256.c", "v256ctr", 8, "SkinnyVector8x32_t", "skinny128_ecb_encrypt_eight", None),
+    ("skinny128-parallel-vec256.c", "v256par", 8, "SkinnyVector8x32_t", "_skinny128_parallel_encrypt_vec256", "_skinny128_parallel_decrypt_vec256"),
+]
+
 def is_call_stmt(s):
     m = re.match(r"SStore (\d+) (\d+) (\d+) \(ECall \d+ \(ELoad (\d+) (\d+) (\d+)\)\)$", s)
     return bool(m) and m.group(1, 2, 3) == m.group(4, 5, 6)
@@ -534,6 +648,7 @@ def is_call_stmt(s):
 def main():
     repo, outv, cfgname = sys.argv[1], sys.argv[2], sys.argv[3]
     flags = sys.argv[4:]
+    part = os.environ.get("C2IR_PART", "all")          # scalar | v128ctr | v128par | v256ctr | v256par | all
     tus = {}
     def tu(f):
         if f not in tus: tus[f] = TU(repo, f, flags)
@@ -541,7 +656,7 @@ def main():
     out = ["(* GENERATED by translator/c2ir.py from %s/src (configuration %s: %s) — kernels of the current source as IR programs," % (repo, cfgname, " ".join(flags) or "default"),
            "   and the obligations that each equals its specification step for ALL inputs (reflective check + soundness theorem). *)",
            "From Coq Require Import List String Bool NArith Arith.",
-           "From Skinny Require Import Bits SpecSkinny SpecMantis IR Anf IRCheck KernelSpecs KernelHom KernelSpecs2 KernelHom2.",
+           "From Skinny Require Import Bits SpecSkinny SpecMantis IR Anf IRCheck KernelSpecs KernelHom KernelSpecs2 KernelHom2 KernelSpecs3 KernelHom3.",
            "Import ListNotations.", "Open Scope string_scope.", ""]
     names = []
     def obligations(name, g, spec, args):
@@ -553,13 +668,14 @@ def main():
                 "  fst (execB (callf_spec bool xorb andb false true) %s (m, [])) = %s %s m." % (name, spec, args[1]),
                 "Proof. exact (check_kernel_sound _ _ _ _ _ _ callf_spec_hom (%s_hom %s) %s_check). Qed."
                 % (spec, "_ _" if spec in ("k128_tk1_body", "k64_tk1_body") else "_", name), ""]
-    for cfile, fn, spec, args in PURE:
+    scalar = part in ("all", "scalar")
+    for cfile, fn, spec, args in (PURE if scalar else []):
         g = kernel_pure(tu(cfile), fn, {})
         out.append(emit(g, fn)); out += obligations(fn, g, spec, args); names.append(fn)
-    for cfile, fn, spec, args in CELLS:
+    for cfile, fn, spec, args in (CELLS if scalar else []):
         g = kernel_cells(tu(cfile), fn, {})
         out.append(emit(g, fn)); out += obligations(fn, g, spec, args); names.append(fn)
-    for cfile, fn, name, binds, order, specs, comp in ROUNDS:
+    for cfile, fn, name, binds, order, specs, comp in (ROUNDS if scalar else []):
         g = kernel_loop(tu(cfile), fn, 0, binds, OPAQUE)
         flagsq = [is_call_stmt(s) for s in g.stmts]
         # the body must be one run of S-box calls and one run of other statements, in the expected order
@@ -589,11 +705,11 @@ def main():
                 "Qed.", ""]
         names.append(name)
     # ---- key-schedule loop bodies
-    for cfile, fn, nth, name, binds, consts, carried, sizes_o, spec, args in tk_kernels():
+    for cfile, fn, nth, name, binds, consts, carried, sizes_o, spec, args in (tk_kernels() if scalar else []):
         g = kernel_loop(tu(cfile), fn, nth, binds, {}, consts, carried, sizes_o)
         out.append(emit(g, name)); out += obligations(name, g, spec, args); names.append(name)
     # ---- MANTIS forward / backward round bodies: three segments each
-    for fn, nth, name, twv, specs in MANTIS_ROUNDS:
+    for fn, nth, name, twv, specs in (MANTIS_ROUNDS if scalar else []):
         t = tu("mantis-cipher.c")
         rtype = None
         for n_ in (t.funcs[fn]["inner"][-1].get("inner") or []):
@@ -627,11 +743,65 @@ def main():
                 "  " + "".join("constructor; [exact (%s_hom _) | " % sp for sp, _ in specs) + "constructor" + "]" * len(specs) + ".",
                 "Qed.", ""]
         names.append(name)
+    # ---- SIMD (row-sliced) SKINNY-128 kernels, when the configuration compiles them in
+    simd = not any(f.startswith("-DSKINNY_C_VERIF_VEC128=0") for f in flags)
+    for cfile, tag, lanes, vt, encf, decf in ([v for v in VEC_FILES if part in ("all", v[1])] if simd else []):
+        t = tu(cfile)
+        procs = [(nm, sp) for nm, sp in (("skinny128_sbox_four", "kv_sbox128"), ("skinny128_sbox_two", "kv_sbox128"),
+                                         ("skinny128_inv_sbox_four", "kv_inv_sbox128"), ("skinny128_inv_sbox_two", "kv_inv_sbox128"))
+                 if nm in t.funcs]
+        used = set()
+        def collect(n_):
+            if n_.get("kind") == "DeclRefExpr" and n_.get("referencedDecl", {}).get("kind") == "FunctionDecl":
+                used.add(n_["referencedDecl"]["name"])
+            for c_ in n_.get("inner", []) or []:
+                if c_: collect(c_)
+        for fn_ in (encf, decf):
+            if fn_ and fn_ in t.funcs: collect(t.funcs[fn_])
+        for nm, sp in procs:
+            if nm not in used: continue                     # e.g. sbox_two is dead code in the 64-bit configuration
+            g = kernel_cells(t, nm, {})
+            name = "%s_%s" % (tag, nm.replace("skinny128_", ""))
+            out.append(emit(g, name)); out += obligations(name, g, sp, FULL); names.append(name)
+        binds = {"row0": ("row0", vt), "row1": ("row1", vt), "row2": ("row2", vt), "row3": ("row3", vt),
+                 "schedule": ("sched", "Skinny128HalfCells_t *")}
+        for fn_, order, specs, suffix in ((encf, "CL", [("kv128_subcells", FULL), ("kv128_enc_linear", XZO)], "enc_round"),
+                                          (decf, "LC", [("kv128_dec_linear", XZO), ("kv128_subcells_inv", FULL)], "dec_round")):
+            if not fn_ or fn_ not in t.funcs: continue
+            g = kernel_loop(t, fn_, 0, binds, OPAQUE)
+            name = "%s_%s" % (tag, suffix)
+            flagsq = [is_call_stmt(st) for st in g.stmts]
+            k = flagsq.index(order[1] == "C") if (order[1] == "C") in flagsq else len(flagsq)
+            first, second = g.stmts[:k], g.stmts[k:]
+            ok = all(is_call_stmt(st) == (order[0] == "C") for st in first) and all(is_call_stmt(st) == (order[1] == "C") for st in second) and first and second
+            if not ok:
+                raise Unsupported("%s: the loop body is not [%s] as expected" % (fn_, order))
+            out.append(emit(g, name))
+            sizes = "%s_sizes" % name
+            for i, (seg, (spec, args)) in enumerate(zip((first, second), specs)):
+                out.append("Definition %s_seg%d : list stmt := [\n  %s\n]." % (name, i, ";\n  ".join(seg)))
+                out.append("Theorem %s_seg%d_check : check_kernel (callf_spec poly pxor pand pzero pone) %s %s_seg%d (%s %s %d) = true."
+                           % (name, i, sizes, name, i, spec, args[0], lanes))
+                out.append("Proof. vm_compute. reflexivity. Qed.")
+            s0, s1 = specs
+            out += ["Theorem %s_split : %s = (%s_seg0 ++ %s_seg1)%%list. Proof. reflexivity. Qed." % (name, name, name, name),
+                    "Theorem %s_wf : wf_prog %s %s = true. Proof. vm_compute. reflexivity. Qed." % (name, sizes, name),
+                    "Theorem %s_closed : locals_closed %s_seg1 = true. Proof. vm_compute. reflexivity. Qed." % (name, name),
+                    "Theorem %s_bounds : stores_in_bounds %s %s_seg0 = true. Proof. vm_compute. reflexivity. Qed." % (name, sizes, name),
+                    "Theorem %s_correct : forall m : mem bool, shaped %s m ->" % (name, sizes),
+                    "  fst (execB (callf_spec bool xorb andb false true) %s (m, [])) = %s %s %d (%s %s %d m)."
+                    % (name, s1[0], s1[1][1], lanes, s0[0], s0[1][1], lanes),
+                    "Proof.",
+                    "  intros m Hm. rewrite %s_split." % name,
+                    "  exact (check_two_segments _ _ _ _ _ _ _ _ _ callf_spec_hom (%s_hom %d _) (%s_hom %d _) %s_seg0_check %s_seg1_check %s_closed %s_bounds m Hm)."
+                    % (s0[0], lanes, s1[0], lanes, name, name, name, name),
+                    "Qed.", ""]
+            names.append(name)
     out.append("Definition kernel_names : list string := [%s]." % "; ".join('"%s"' % n for n in names))
     for n in names:
         out.append("Print Assumptions %s_correct." % n)
     open(outv, "w").write("\n".join(out) + "\n")
-    print("%s: %d kernels" % (cfgname, len(names)))
+    print("%s/%s: %d kernels" % (cfgname, part, len(names)))
 
 if __name__ == "__main__":
     try:
